@@ -26,6 +26,11 @@ pub enum Op {
     Write(usize, usize),
     Alloc(usize),
     Panic(usize),
+    /// index insert / sorted-index insert (kernel_set_substate path): key bytes, value bytes
+    IWrite(usize, usize),
+    SWrite(usize, usize),
+    /// write of field 0 of SELF (write_substate path)
+    FWrite(usize),
 }
 
 #[derive(Default)]
@@ -62,6 +67,8 @@ pub fn l_package() -> PackageDefinition {
     let mut l = BpSpec::new(L_BP);
     l.fields = 1;
     l.kv_collections = 1;
+    l.index_collections = 1;
+    l.sorted_collections = 1;
     l.event_e = true;
     l.functions = vec![("new", false), ("run", true)];
     package_definition(&[l])
@@ -127,6 +134,22 @@ pub fn invoke<Y: SystemApi<RuntimeError> + KernelNodeApi + KernelSubstateApi<Sys
                     Some(Op::Log(n)) => api.emit_log(Level::Info, "l".repeat(n)),
                     Some(Op::Panic(n)) => api.panic("p".repeat(n)),
                     Some(Op::Write(k, v)) => write_entry(api, k, v),
+                    Some(Op::IWrite(k, v)) => {
+                        let key = fresh_key(k);
+                        let value = bytes_payload(v - INDEX_OVERHEAD, 5).expect("harness: value size not realizable");
+                        api.actor_index_insert(ACTOR_STATE_SELF, 1, key, value)
+                    }
+                    Some(Op::SWrite(k, v)) => {
+                        let key = fresh_key(k);
+                        let value = bytes_payload(v - INDEX_OVERHEAD, 6).expect("harness: value size not realizable");
+                        api.actor_sorted_index_insert(ACTOR_STATE_SELF, 2, ([0u8, 7u8], key), value)
+                    }
+                    Some(Op::FWrite(n)) => (|| {
+                        let value = bytes_payload(n - FIELD_OVERHEAD, 7).expect("harness: field size not realizable");
+                        let h = api.actor_open_field(ACTOR_STATE_SELF, 0, LockFlags::MUTABLE)?;
+                        api.field_write(h, value)?;
+                        api.field_close(h)
+                    })(),
                     Some(Op::Alloc(n)) => {
                         // a heap object of blueprint L whose field substate has exactly n bytes
                         let payload = bytes_payload(n - FIELD_OVERHEAD, 4).expect("harness: field size not realizable");
@@ -153,6 +176,22 @@ pub fn invoke<Y: SystemApi<RuntimeError> + KernelNodeApi + KernelSubstateApi<Sys
 
 thread_local! {
     static KEYSEQ: RefCell<u32> = RefCell::new(0);
+}
+
+/// bytes the system adds around the user value of an index / sorted-index entry substate
+pub const INDEX_OVERHEAD: usize = 4;
+
+/// an SBOR byte-array key of exactly k encoded bytes (k >= 8) that was never used before
+fn fresh_key(k: usize) -> Vec<u8> {
+    let mut key = bytes_payload(k, 0).expect("harness: key size not realizable");
+    let seq = KEYSEQ.with(|c| {
+        let mut c = c.borrow_mut();
+        *c += 1;
+        *c
+    });
+    let n = key.len();
+    key[n - 4..].copy_from_slice(&seq.to_be_bytes());
+    key
 }
 
 /// one KV write into collection 0 of SELF: substate key of exactly k bytes (k >= 8, fresh),
@@ -216,6 +255,9 @@ pub fn parse_ops(v: &Value) -> Vec<Op> {
                 "write" => Op::Write(n("k"), n("n")),
                 "alloc" => Op::Alloc(n("n")),
                 "panic" => Op::Panic(n("n")),
+                "iwrite" => Op::IWrite(n("k"), n("n")),
+                "swrite" => Op::SWrite(n("k"), n("n")),
+                "fwrite" => Op::FWrite(n("n")),
                 x => panic!("harness: unknown op {}", x),
             }
         })
@@ -233,6 +275,9 @@ pub fn ops_json(ops: &[Op]) -> Value {
                 Op::Write(k, n) => json!({"op": "write", "n": n, "k": k}),
                 Op::Alloc(n) => json!({"op": "alloc", "n": n, "k": 0}),
                 Op::Panic(n) => json!({"op": "panic", "n": n, "k": 0}),
+                Op::IWrite(k, n) => json!({"op": "iwrite", "n": n, "k": k}),
+                Op::SWrite(k, n) => json!({"op": "swrite", "n": n, "k": k}),
+                Op::FWrite(n) => json!({"op": "fwrite", "n": n, "k": 0}),
             })
             .collect(),
     )
@@ -348,17 +393,34 @@ impl Bench {
                 if status == "success" {
                     // self-check of the concretisation: the KV entries written have exactly the
                     // key/value sizes the program asked for
-                    let mut want: Vec<(usize, usize)> =
-                        ops.iter().filter_map(|o| if let Op::Write(k, v) = o { Some((*k, *v)) } else { None }).collect();
+                    // (partition offset, key bytes, value bytes) of what was written: KV entries 1, index 2, sorted index 3 (key + 2)
+                    let mut want: Vec<(u8, usize, usize)> = ops
+                        .iter()
+                        .filter_map(|o| match o {
+                            Op::Write(k, v) => Some((1u8, *k, *v)),
+                            Op::IWrite(k, v) => Some((2u8, *k, *v)),
+                            Op::SWrite(k, v) => Some((3u8, *k + 2, *v)),
+                            _ => None,
+                        })
+                        .collect();
+                    if let Some(Op::FWrite(n)) = ops.iter().rev().find(|o| matches!(o, Op::FWrite(_))) {
+                        want.push((0, 1, *n));
+                    }
                     want.sort();
-                    let mut got: Vec<(usize, usize)> = vec![];
+                    let mut got: Vec<(u8, usize, usize)> = vec![];
                     if let Some(NodeStateUpdates::Delta { by_partition }) = c.state_updates.by_node.get(self.comp.as_node_id()) {
                         for (pn, pu) in by_partition {
-                            if *pn == MAIN_BASE_PARTITION.at_offset(PartitionOffset(1)).unwrap() {
-                                if let PartitionStateUpdates::Delta { by_substate } = pu {
-                                    for (k, u) in by_substate {
-                                        if let (SubstateKey::Map(k), DatabaseUpdate::Set(v)) = (k, u) {
-                                            got.push((k.len(), v.len()));
+                            for off in 0..4u8 {
+                                if *pn == MAIN_BASE_PARTITION.at_offset(PartitionOffset(off)).unwrap() {
+                                    if let PartitionStateUpdates::Delta { by_substate } = pu {
+                                        for (k, u) in by_substate {
+                                            if let DatabaseUpdate::Set(v) = u {
+                                                match k {
+                                                    SubstateKey::Map(k) => got.push((off, k.len(), v.len())),
+                                                    SubstateKey::Sorted((_, k)) => got.push((off, k.len() + 2, v.len())),
+                                                    SubstateKey::Field(_) => got.push((off, 1, v.len())),
+                                                }
+                                            }
                                         }
                                     }
                                 }
